@@ -49,6 +49,8 @@ func init() {
 	probes["O35"] = probeO35
 	probes["O36"] = probeO36
 	probes["O37"] = probeO37
+	probes["O46"] = probeO46
+	probes["O47"] = probeO47
 	probes["O38"] = probePanics(func() { ucfg.New().SetChild("a", -1, nil) })
 	probes["O39"] = probePanics(func() {
 		c, _ := ucfg.NewFrom(map[string]interface{}{"m": map[string]interface{}{"a": 1}})
@@ -644,4 +646,38 @@ func probePanics(f func()) func() (bool, string) {
 		f()
 		return false, "returned"
 	}
+}
+
+func probeO46() (bool, string) {
+	// (runs in a goroutine with a deadline: the defect is a hang)
+	done := make(chan string, 1)
+	go func() {
+		defer func() { recover() }()
+		c, _ := ucfg.NewFrom(map[string]interface{}{"x": "${X}"}, ucfg.VarExp)
+		var m map[string]interface{}
+		err := c.Unpack(&m, ucfg.VarExp, ucfg.Resolve(func(name string) (string, parse.Config, error) {
+			return "[${" + name + "}]", parse.DefaultConfig, nil
+		}))
+		done <- fmt.Sprint(err, m)
+	}()
+	select {
+	case s := <-done:
+		return false, s
+	case <-time.After(2 * time.Second):
+		return true, "no result within 2 s"
+	}
+}
+
+type probeRec struct {
+	X *probeRec `config:"x"`
+}
+
+func probeO47() (bool, string) {
+	c, _ := ucfg.NewFrom(map[string]interface{}{"a": map[string]interface{}{"x": "${a}"}}, ucfg.VarExp)
+	var t struct{ A probeRec }
+	// bounded: on a tree with the defect the instrumented build stops the recursion with its step budget
+	return guard(func() (bool, string) {
+		err := c.Unpack(&t, ucfg.VarExp)
+		return err == nil, fmt.Sprint(err)
+	})
 }
